@@ -31,6 +31,12 @@ def run(ctx):
     ctx.count("waitq_runs_conclusive", ok)
     ctx.required_counters = ["WAITLIST_ENQUEUE", "WAITLIST_WAKEUP", "WAITLIST_WAKEUP_ALL", "WAITLIST_WAKEUP_EMPTY", "WAITLIST_CHECKS",
                              "relocations", "PARK_SLOW", "UNPARK_SLOW_WAITS", "JOIN_CALLS"]
+    if not ctx.quick():
+        tj = []
+        for i in range(48):
+            r = ctx.rng("tsan", i)
+            tj.append(("waitq", {"seed": ctx.seed * 31337 + i, "threads": r.choice([2, 3, 4]), "ops": r.choice([50, 200]), "rounds": 20, "perturb": r.choice([0, 200])}))
+        proto.run_tsan(ctx, "C09", tj)
     try:
         from . import c09_programs
     except ImportError:
